@@ -180,7 +180,7 @@ CHECKS = {
                 "at or above the partition, status, claims) to that of the unfaulted twin. Non-trivial = the fault hits at or after the first write "
                 "of a reconcile with >= 2 writes; distinct = distinct (state, position, kind, second fault)",
         "legs": [{"test": "TestC09", "quick": {"checks": 120}, "thorough": {"checks": 6400, "shards": 16}}],
-        "floors": {"fault:crashAfter": 0.05, "target:create pods": 0.008, "target:update statefulsets": 0.05},
+        "floors": {"fault:crashAfter": 0.05, "target:create pods": 0.008, "target:update statefulsets": 0.02},
         "timeout": {"quick": 1500, "thorough": 14400},
         "assumptions": ["a crash is modelled as abandoning the reconcile at the call, building a new controller and refilling its caches",
                         "timeouts are the only 'applied but reported as failed' kind"] + COMMON_ASSUMPTIONS,
